@@ -37,7 +37,16 @@ def main():
     envs = json.dumps([d["env"] for d in chosen[0]["den"]])
     # all programs of one run must share the environment list length used by their family; pass the longest
     maxenv = max(chosen, key=lambda pr: len(pr["den"]))
-    envs = json.dumps([d["env"] for d in maxenv["den"]])
+    envlist = [d["env"] for d in maxenv["den"]]
+    envs = json.dumps(envlist)
+
+    def same_env(a, b):
+        # the longest list may know more conditions than a family uses
+        return a["s"] == b["s"] and a["l"] == b["l"] and all(b["c"].get(k) == v for k, v in a["c"].items())
+    for pr in chosen:
+        for i, d in enumerate(pr["den"]):
+            if not same_env(d["env"], envlist[i]):
+                raise vlib.InfraError("environment lists of the families are not prefixes of one list (program %s, environment %d)" % (pr["id"], i))
     compile_failures = []
 
     def build(d):
